@@ -60,81 +60,33 @@ def write_if_changed(path, content):
     return False
 
 
-# ---------------------------------------------------------------- fields (C08, C09)
-def extract_fields():
-    rel = "ff/prime_field.rs"
-    t = read(rel)
+def load_plugins():
+    """Every tools/extractors/*.py defines extract() -> {generated file name: content}."""
+    import importlib.util
+    d = os.path.join(VERIF, "tools", "extractors")
     out = []
-    fields = {}
-    for m in re.finditer(r"field_impl!\s*\{\s*(\w+)\s*,\s*(\w+)\s*,\s*(\w+)\s*,\s*(\d+)\s*,\s*([\d_]+)\s*\}", t):
-        name, store, op, bits, prime = m.groups()
-        fields[name] = dict(store=UBITS[store], op=UBITS[op], bits=int(bits), p=rust_int(prime))
-        record("prime." + name, rel, t, m, fields[name])
-    for want in ("Fp31", "Fp32BitPrime", "Fp61BitPrime"):
-        if want not in fields:
-            fail("prime." + want, "field_impl! invocation not found")
-    rem = set(re.findall(r"rem_modulo_impl!\s*\{\s*(\w+)\s*,", t))
-    for name, f in fields.items():
-        f["mersenne"] = name not in rem
-    # the hand-written Mersenne reduction: two folding rounds and a final comparison
-    m = re.search(r"fn modulo_prime_u128\(val: u128\) -> Self\s+where\s+Self: U128Conversions,\s*\{(.*?)\n        \}", t, re.S)
-    if m:
-        body = m.group(1)
-        rounds = len(re.findall(r"let val = \(val & PRIME\) \+ \(val >> Self::BITS\);", body))
-        record("prime.mersenne_rounds", rel, t, m, rounds)
-        if rounds != 2:
-            fail("prime.mersenne_rounds", f"expected 2 folding rounds, found {rounds}")
-    else:
-        fail("prime.mersenne_rounds", "Fp61BitPrime::modulo_prime_u128 not found")
-    m = re.search(r"type Accumulator = Accumulator<Fp61BitPrime, u128, (\d+)>;", t)
-    interval = None
-    if m:
-        interval = int(m.group(1))
-        record("prime.acc_interval", rel, t, m, interval)
-    else:
-        fail("prime.acc_interval", "Accumulator<Fp61BitPrime, u128, N> not found")
-    m2 = re.search(r"type AccumulatorArray<const N: usize> = Accumulator<Fp61BitPrime, \[u128; N\], (\d+)>;", t)
-    if m2:
-        record("prime.acc_interval_array", rel, t, m2, int(m2.group(1)))
-        if interval is not None and int(m2.group(1)) != interval:
-            fail("prime.acc_interval_array", "scalar and array accumulators use different intervals")
-    else:
-        fail("prime.acc_interval_array", "AccumulatorArray interval not found")
-
-    lines = [
-        "import IpaVerif.Model.PrimeField",
-        "/-! GENERATED by tools/extract.py from ipa-core/src/ff/prime_field.rs — do not edit. -/",
-        "namespace IpaVerif.Generated",
-        "open IpaVerif.PrimeField",
-        "",
-    ]
-    lname = {"Fp31": "fp31", "Fp32BitPrime": "fp32", "Fp61BitPrime": "fp61"}
-    for name in ("Fp31", "Fp32BitPrime", "Fp61BitPrime"):
-        if name in fields:
-            f = fields[name]
-            lines.append(
-                f'def {lname[name]} : Params := {{ name := "{name}", p := {f["p"]}, bits := {f["bits"]}, '
-                f'storeBits := {f["store"]}, opBits := {f["op"]}, mersenne := {"true" if f["mersenne"] else "false"} }}'
-            )
-    lines.append(f"def accInterval : Nat := {interval if interval is not None else 0}")
-    lines.append("")
-    lines.append("def primeFields : List Params := [" + ", ".join(lname[n] for n in ("Fp31", "Fp32BitPrime", "Fp61BitPrime") if n in fields) + "]")
-    lines.append("")
-    lines.append("end IpaVerif.Generated")
-    return {"PrimeFields.lean": "\n".join(lines) + "\n"}
+    for fn in sorted(os.listdir(d)):
+        if fn.endswith(".py") and not fn.startswith("_"):
+            spec = importlib.util.spec_from_file_location("extractors_" + fn[:-3], os.path.join(d, fn))
+            mod = importlib.util.module_from_spec(spec)
+            try:
+                spec.loader.exec_module(mod)
+                out.append((fn[:-3], mod.extract))
+            except Exception as e:
+                fail("plugin." + fn[:-3], f"{type(e).__name__}: {e}")
+    return out
 
 
-EXTRACTORS = [extract_fields]
 
 
 def main():
     os.makedirs(GEN, exist_ok=True)
     changed = []
-    for ex in EXTRACTORS:
+    for name, ex in load_plugins():
         try:
             files = ex()
         except Exception as e:  # a source file vanished or no longer parses
-            fail(ex.__name__, f"{type(e).__name__}: {e}")
+            fail("plugin." + name, f"{type(e).__name__}: {e}")
             continue
         for fn, content in files.items():
             if write_if_changed(os.path.join(GEN, fn), content):
@@ -150,4 +102,5 @@ def main():
 
 
 if __name__ == "__main__":
+    sys.modules["extract"] = sys.modules["__main__"]
     sys.exit(main())
